@@ -1,13 +1,68 @@
-import GfsModel.Ranges
+/-
+  C01 — frame-range strings expand to exactly the frame list the shorthand denotes;
+  everything else is rejected.  Property theorems only.
+-/
 import GfsModel.FrameSet
-import GfsSpec.Enum
 import GfsSpec.Denote
+import GfsSpec.Grammar
+import GfsSpec.WF
+import GfsProofs.ParseSyn
+import GfsProofs.ParseSem
 
 namespace Gfs.Props.C01
-open Gfs
+open Gfs Gfs.Spec Gfs.Proofs
 
-/-- NewInclusiveRange never stores a zero step. -/
-theorem C01_mkRng_step_ne_zero (s e st : Int) : (mkRng s e st).step ≠ 0 := by
-  unfold mkRng; simp only; split <;> (try split) <;> omega
+/-- C01 (expansion): for every component list of the documented shorthand — any number of
+    components, any sign, direction, step magnitude and sign, modifier, position, leading
+    zeros, and any placement of spaces / '#' / '@' in the text — whose steps are non-zero
+    and whose numbers fit an int, parsing succeeds and yields exactly the denoted list:
+    each component expanded in its own direction with its own step, concatenated left to
+    right, a frame kept only at its first occurrence. -/
+theorem C01_expand (cs : List Comp) (txt : Bytes) (hne : cs ≠ [])
+    (ht : RangeText cs txt) (hv : ∀ c ∈ cs, c.valid) :
+    ∃ fs, FrameSet.parse txt = .ok fs ∧ fs.frames = denote cs ∧ WF fs.blocks := by
+  obtain ⟨parts, hparts, hstrip⟩ := ht
+  obtain ⟨ms, hms, hrel⟩ := frameRangeMatches_complete cs parts txt hne hparts hstrip
+  obtain ⟨bl, hbl, hwf, henum⟩ := handleMatches_valid [] wf_nil cs ms hrel hv
+  refine ⟨⟨txt, bl⟩, ?_, ?_, hwf⟩
+  · simp [FrameSet.parse, hms, hbl, bind, Except.bind, pure, Except.pure]
+  · show Blocks.iter bl = denote cs
+    rw [blocks_iter bl hwf, henum, denote_eq_fold]
+    rfl
+
+/-- C01 (rejection): a string is accepted exactly when it is a text of some non-empty
+    component list of the grammar whose steps are non-zero and whose numbers all fit an int.
+    Hence strings outside the grammar, with a zero step, or with a numeral that does not fit
+    are rejected with an error. -/
+theorem C01_accept_iff (txt : Bytes) :
+    (∃ fs, FrameSet.parse txt = .ok fs) ↔
+    ∃ cs, cs ≠ [] ∧ RangeText cs txt ∧ ∀ c ∈ cs, c.valid := by
+  constructor
+  · rintro ⟨fs, hfs⟩
+    unfold FrameSet.parse at hfs
+    cases hm : frameRangeMatches txt with
+    | error e => simp [hm, bind, Except.bind] at hfs
+    | ok ms =>
+      obtain ⟨cs, hne, hrt, hrel⟩ := frameRangeMatches_sound txt ms hm
+      refine ⟨cs, hne, hrt, ?_⟩
+      intro c hc
+      apply Classical.byContradiction
+      intro hnv
+      obtain ⟨e, he⟩ := handleMatches_invalid [] cs ms hrel ⟨c, hc, hnv⟩
+      simp [hm, he, bind, Except.bind] at hfs
+  · rintro ⟨cs, hne, hrt, hv⟩
+    obtain ⟨fs, hfs, _, _⟩ := C01_expand cs txt hne hrt hv
+    exact ⟨fs, hfs⟩
+
+/-- Length agrees with the denotation. -/
+theorem C01_len (cs : List Comp) (txt : Bytes) (hne : cs ≠ [])
+    (ht : RangeText cs txt) (hv : ∀ c ∈ cs, c.valid) :
+    ∃ fs, FrameSet.parse txt = .ok fs ∧ fs.len = (denote cs).length := by
+  obtain ⟨fs, hfs, hfr, hwf⟩ := C01_expand cs txt hne ht hv
+  refine ⟨fs, hfs, ?_⟩
+  show Blocks.len fs.blocks = _
+  rw [blocks_len fs.blocks hwf, ← hfr]
+  show _ = ((Blocks.iter fs.blocks).length : Int)
+  rw [blocks_iter fs.blocks hwf]
 
 end Gfs.Props.C01
